@@ -407,6 +407,87 @@ def make_map_run(n_keys_per_group, n_groups, with_default, backend):
 # ---------------------------------------------------------------------------------
 
 
+# ---------------------------------------------------------------------------------
+# B: method binding - the user reaches an operator through a generated method / accessor / free function
+
+
+def binding_run(carve):
+    """every ColExpr method (incl. the .str / .dt / .dur / .list accessors, dunder and reflected dunder operators) and every
+    free function of the public API builds ColFn(<its operator>, receiver, *args) with the arguments in call order"""
+    import warnings
+
+    from . import c12
+    from .c13 import _enum_outcome
+
+    pdt = H.pdt
+    t = pdt.Table(c12.frames(), name="t")
+    CE = H.col_expr_mod
+    n, bad = 0, []
+    FREE = {"horizontal_max": pdt.max, "horizontal_min": pdt.min, "coalesce": pdt.coalesce, "row_number": pdt.row_number, "rank": pdt.rank, "dense_rank": pdt.dense_rank, "count_star": pdt.count, "rand": getattr(pdt, "rand", None)}
+    for extra_name, fname in (("horizontal_any", "any"), ("horizontal_all", "all"), ("horizontal_sum", "sum")):
+        FREE[extra_name] = getattr(pdt, fname, None)
+    REFLECT = {"__add__": "__radd__", "__sub__": "__rsub__", "__mul__": "__rmul__", "__truediv__": "__rtruediv__", "__floordiv__": "__rfloordiv__", "__mod__": "__rmod__", "__pow__": "__rpow__", "__and__": "__rand__", "__or__": "__ror__", "__xor__": "__rxor__"}
+
+    def same_arg(built, given):
+        if isinstance(given, CE.ColExpr):
+            return built is given
+        return isinstance(built, CE.LiteralCol) and (built.val == given or (built.val is None and given is None)) and type(built.val) is type(given)
+
+    with warnings.catch_warnings():
+        warnings.simplefilter("ignore")
+        for opname, op in H.ALL_OPS.items():
+            if isinstance(op, pdt._internal.ops.ops.markers.Marker):
+                continue
+            seen_shapes = set()
+            for sig in c12.sig_universe(op):
+                shape = tuple((types.is_const(p), type(types.without_const(p)).__name__) for p in sig)
+                if shape in seen_shapes or len(seen_shapes) >= 6:
+                    continue
+                args = c12.mk_args(t, sig)
+                if args is None or (len(args) > 0 and not isinstance(args[0], CE.ColExpr) and op.generate_expr_method):
+                    continue
+                seen_shapes.add(shape)
+                kw = {}
+                if op.ftype == H.Ftype.WINDOW or any(k.name == "arrange" and k.required for k in (op.context_kwargs or [])):
+                    kw["arrange"] = [t.g]
+                calls = []
+                if op.generate_expr_method:
+                    recv, rest = args[0], args[1:]
+                    name = op.name
+                    if "." in name:
+                        ns, meth = name.split(".", 1)
+                        calls.append((f"<{type(types.without_const(sig[0])).__name__}>.{name}", lambda recv=recv, ns=ns, meth=meth, rest=rest: getattr(getattr(recv, ns), meth)(*rest, **kw), [recv] + rest))
+                    else:
+                        calls.append((f"<{type(types.without_const(sig[0])).__name__}>.{name}", lambda recv=recv, name=name, rest=rest: getattr(recv, name)(*rest, **kw), [recv] + rest))
+                        if name in REFLECT and len(args) == 2 and isinstance(args[1], CE.ColExpr) and not isinstance(args[0], CE.ColExpr):
+                            pass
+                        if name in REFLECT and len(args) == 2 and isinstance(args[0], CE.ColExpr) and not isinstance(args[1], CE.ColExpr) and not (name in ("__and__", "__or__", "__xor__")):
+                            # literal <op> column goes through the reflected method: ColFn(op, literal, column)
+                            lit_, col_ = args[1], args[0]
+                            rsig = (sig[1], sig[0])
+                            if c12._rt(op, rsig)[0] == "ok":
+                                calls.append((f"{lit_!r} {name} <col> via {REFLECT[name]}", lambda col_=col_, lit_=lit_, name=name: getattr(col_, REFLECT[name])(lit_), [lit_, col_]))
+                elif FREE.get(opname) is not None:
+                    f = FREE[opname]
+                    calls.append((f"pdt.{f.__name__}", lambda f=f, args=args: f(*args, **kw), list(args)))
+                for label, thunk, want_args in calls:
+                    n += 1
+                    try:
+                        e = thunk()
+                    except Exception as ex:  # noqa: BLE001
+                        bad.append(f"{opname}: {label}({', '.join(type(a).__name__ for a in want_args[1:])}) raises {type(ex).__name__}: {str(ex)[:120]}")
+                        continue
+                    if not isinstance(e, CE.ColFn):
+                        bad.append(f"{opname}: {label} returns {type(e).__name__}, not a ColFn")
+                        continue
+                    if e.op is not op:
+                        bad.append(f"{opname}: {label} builds the operator `{e.op.name}` instead of `{op.name}`")
+                        continue
+                    if len(e.args) != len(want_args) or not all(same_arg(b, g) for b, g in zip(e.args, want_args)):
+                        bad.append(f"{opname}: {label} passes the arguments {[a.ast_repr() if hasattr(a, 'ast_repr') else a for a in e.args]} for the call arguments {[a.ast_repr() if hasattr(a, 'ast_repr') else a for a in want_args]}")
+    return _enum_outcome("every public method / accessor / reflected operator / free function builds ColFn(<its operator>, arguments in call order)", n, bad)
+
+
 def obligations(tier):
     obs = []
     backend_cls = {"polars": H.polars_backend.PolarsImpl, "sqlite": H.sqlite_backend.SqliteImpl}
@@ -457,6 +538,8 @@ def obligations(tier):
                             carveouts={"null_input": "exclude a null first operand", "whole": "whole obligation"},
                         )
                     )
+    obs.append(Obligation("C03/B/method_binding", "B", "methods, accessors, reflected operators and free functions are bound to their operators with the arguments in order", binding_run,
+                          functions=[H.fn_info(H.col_expr_mod.ColFn.__init__)], bounded="up to 6 argument shapes per operator (every operator of the registry); the bound method is a straight-line constructor call"))
     from pydiverse.common import Float64, Int64, String
 
     case_fns = {
